@@ -27,6 +27,9 @@ def registry():
     reg.external('EntryPointToken.get', ep_get,
                  'EntryPointToken.get(expression, cell) returns (token or None, list of unconsumed lexer tokens) '
                  '(consumed-prefix contract of CompositeBaseToken.get: bounded run-time contract, C05.monitor)')
+    reg.external('CompositeBaseToken._get.cache_clear', lambda ex, st, args, kwargs, node: [(st, V.NoneV)],
+                 'functools.lru_cache: cache_clear() only forgets cached results (K5: the cache is not observable)')
+    reg.external('CompositeBaseToken', placeholder, 'only its cache_clear is referenced')
     reg.add(Contract(
         'AstBuilder.parse', 'repo:ast_builder.py:AstBuilder.parse', {'expression': 'list', 'in_cell': 'obj:Cell'},
         ensures={'whole_formula': 'result == entry_token(expression) and is_obj(result) and len(entry_rest(expression)) == 0'},
@@ -128,14 +131,28 @@ def registry_get():
 
     EXPR = ('all(is_lex(expression[i]) and not is_none(expression[i]) for i in range(len(expression)))')
     SUFFIX = ('len({rest}) == len(expression) - {c} and all({rest}[q] == expression[{c} + q] for q in range(len({rest})))')
-    post = ('(is_none(result[0]) and result[1] == expression) or '
+    post = ('(is_none(result[0]) and is_list(result[1]) and len(result[1]) == len(expression) and '
+            'all(result[1][q] == expression[q] for q in range(len(expression)))) or '
             '(not is_none(result[0]) and width(result[0]) >= 1 and width(result[0]) <= len(expression) and '
             'is_list(result[1]) and ' + SUFFIX.format(rest='result[1]', c='width(result[0])') + ' and '
             'all(leaf(result[0], p) == expression[p] for p in range(width(result[0]))))')
+    ENS = {'is_pair': 'is_tuple(result) and len(result) == 2',
+           'token_class': 'implies(not is_none(result[0]), tcls(result[0]) == cid(cls))',
+           'consumed_prefix': post,
+           'shape_is_a_token_set': 'implies(not is_none(result[0]), tcls(result[0]) == cid(cls) and '
+                                   'any(len(parts(result[0])) == len(token_sets(cls)[s]) and len(parts(result[0])) >= 1 and '
+                                   'all(tcls(parts(result[0])[j]) == cid(token_sets(cls)[s][j]) for j in range(len(parts(result[0])))) '
+                                   'for s in range(len(token_sets(cls)))))'}
     reg.add(Contract(
         'CompositeBaseToken.get', 'repo:tokens/composite_base_token.py:CompositeBaseToken.get',
         {'cls': 'cls', 'expression': 'list', 'in_cell': 'V'}, self_class='CompositeBaseToken',
-        requires=[EXPR],
+        requires=[EXPR], ensures=dict(ENS), free_exceptions=['E2PyclParserException'], callees={'_get': 'CompositeBaseToken._get'},
+        notes='the public entry: converts the list to a tuple and answers from CompositeBaseToken._get (memoised with '
+              'functools.lru_cache, K5: a cached answer is an answer of the function); same contract'))
+    reg.add(Contract(
+        'CompositeBaseToken._get', 'repo:tokens/composite_base_token.py:CompositeBaseToken._get',
+        {'cls': 'cls', 'expression': 'tuple', 'in_cell': 'V'}, self_class='CompositeBaseToken',
+        requires=[EXPR], callees={'get': 'CompositeBaseToken.get'},
         ensures={'is_pair': 'is_tuple(result) and len(result) == 2',
                  'token_class': 'implies(not is_none(result[0]), tcls(result[0]) == cid(cls))',
                  'consumed_prefix': post,
